@@ -3,6 +3,7 @@
 -/
 import TradingVerif.Lemmas.EnvStep
 import TradingVerif.Props.C08
+import TradingVerif.Props.C03
 set_option linter.unusedSectionVars false
 set_option linter.unusedVariables false
 namespace TV
@@ -94,6 +95,49 @@ theorem denote_spec (sp : Space K) :
   · intro allocs i row hk hrow
     unfold denote
     simp [hk, hrow]
+
+/-- **End to end: an in-space action is executed as the allocation it denotes.** When the action due at this
+    step is a member of a weight space (fractional quantities, no threshold) and the execution succeeds on a
+    history that never hit the epsilon snap, then for the pre-trade NLV `nlvPre` (the valuation after the interest
+    accrual) every non-cash contract of the space ends worth `weight × nlvPre` at its execution-side quote —
+    the weight being the action's own entry (box) or the indexed allocation's entry (discrete), a cash entry
+    having been dropped — and every other non-cash contract ends flat: the residual is cash. -/
+theorem in_space_action_executed (pw : K → K → K) (cfg : EnvCfg K) (s1 : EnvState K) (act : Action K) (D : K)
+    (hinv : Inv cfg.world D s1.broker) (ks : List Key)
+    (hks : cfg.space.keys.mapM (resolveKey cfg.chains s1.contractClock) = some ks) (hnd : ks.Nodup)
+    (hin : contains cfg.space act = true)
+    (hfrac : cfg.space.fractional = true) (hmar : cfg.space.margin = 0) (hw : cfg.space.asWeights = true)
+    (hmult : ∀ k, (cfg.world.spec k).mult ≠ 0)
+    (hok : (stepExec pw cfg s1 act).2 = .ok true)
+    (hs : (stepExec pw cfg s1 act).1.broker.snapped = false) :
+    ∃ nlvPre, ∀ k, (cfg.world.spec k).isCash = false →
+      (∀ wt, (k, wt) ∈ cleanAlloc cfg.world (ks.zip (denote cfg.space act)) →
+        ∃ p, (s1.broker.ex.books k).acq (sgn wt) = some p ∧
+          (p ≠ 0 → (stepExec pw cfg s1 act).1.broker.pos k * (cfg.world.spec k).mult * p = wt * nlvPre)) ∧
+      (k ∉ (cleanAlloc cfg.world (ks.zip (denote cfg.space act))).map (·.1) →
+        (stepExec pw cfg s1 act).1.broker.pos k = 0) := by
+  have hreq := valid_action_request cfg.chains s1.contractClock cfg.space act (s1.now.getD 0) hin ks hks
+  unfold stepExec at hok hs ⊢
+  rw [hreq] at hok hs ⊢
+  simp only at hok hs ⊢
+  set reb : Rebal K :=
+    { time := s1.now.getD 0, byWeight := cfg.space.asWeights, absolute := true,
+      fractional := cfg.space.fractional, margin := cfg.space.margin,
+      target := ks.zip (denote cfg.space act) } with hreb
+  have hsub : ((cleanAlloc cfg.world reb.target).map (·.1)).Sublist ks :=
+    cleanAlloc_zip_keys cfg.world ks (denote cfg.space act)
+  cases hr : rebalance pw cfg.world reb s1.broker with
+  | mk b2 res =>
+    rw [hr] at hok hs
+    have hb2 : b2 = (rebalance pw cfg.world reb s1.broker).1 := by rw [hr]
+    cases res with
+    | error e => cases e <;> simp at hok
+    | ok u =>
+        simp only at hs ⊢
+        rw [hb2] at hs ⊢
+        obtain ⟨nlvPre, _, h⟩ := rebalance_reaches_weights pw cfg.world D reb s1.broker hinv (by rw [hr]) hs
+          hfrac hmar rfl hw (hnd.sublist hsub) hmult
+        exact ⟨nlvPre, h⟩
 
 end
 end TV
